@@ -2,6 +2,7 @@ package main
 
 import (
 	"fmt"
+	"time"
 
 	"verif/shim/vsched"
 )
@@ -88,6 +89,9 @@ func c15Oracle(r *SeqRun) []Viol {
 		if want, got := "set=1 get=1 get2=0", fmt.Sprintf("set=%d get=%d get2=%d", r.Probe["p_set"], r.Probe["p_get"], r.Probe["p_get2"]); want != got {
 			out = append(out, Viol{Key: "C15/not-fresh-after-clear", What: "after Clear the probe Set/Wait/Get/Del/Wait/Get observed " + got + ", a new cache gives " + want})
 		}
+		if _, probed := r.Probe["p_ttl_left"]; probed && (r.Probe["p_ttl_left"] != 0 || r.Probe["p_ttl_room"] != 1) {
+			out = append(out, Viol{Key: "C15/expiry-processing-not-fresh-after-clear", What: fmt.Sprintf("after Clear a SetWithTTL(1s) entry is still stored=%d after three sweeps 3, 6 and 9 s later (capacity fully free: %d); a new cache reclaims it", r.Probe["p_ttl_left"], r.Probe["p_ttl_room"])})
+		}
 		if r.Probe["m_on"] == 1 {
 			want := "hits=1 misses=1 keys-added=1 keys-evicted=1 cost-added=1 cost-evicted=1"
 			got := fmt.Sprintf("hits=%d misses=%d keys-added=%d keys-evicted=%d cost-added=%d cost-evicted=%d", r.Probe["m_hits"], r.Probe["m_misses"], r.Probe["m_added"], r.Probe["m_evicted"], r.Probe["m_costadded"], r.Probe["m_costevicted"])
@@ -169,6 +173,17 @@ func c15Probe(c seqCache, r *SeqRun) {
 				r.Probe["m_costadded"], r.Probe["m_costevicted"] = int64(m.CostAdded()), int64(m.CostEvicted())
 				r.Probe["m_on"] = 1
 			}
+			// ... and expiry processing works as on a new cache: a TTL entry written now is
+			// reclaimed by the sweeps that follow its expiry
+			c.SetTTL(8, 888, 1, time.Second)
+			c.Wait()
+			for i := 0; i < 3; i++ {
+				runOp(c, Op{K: "advance", N: 3000})
+				runOp(c, Op{K: "tick"})
+				c.Wait()
+			}
+			r.Probe["p_ttl_left"] = b2i(c.Resident(8))
+			r.Probe["p_ttl_room"] = b2i(c.Remaining() == c.MaxCost())
 		} else {
 			r.Probe["p_set"], r.Probe["p_get"], r.Probe["p_get2"] = 1, 1, 0
 		}
@@ -191,7 +206,7 @@ func c15Seq(tier string) []SeqJob {
 			{K: "advance", N: 3000}} // so that expired-but-unswept TTL entries are resident at the Clear / Close
 		a1 := []Op{{K: "wait"}}
 		spec := &SeqSpec{Cfg: Cfg{NumCounters: 16, MaxCost: 2, BufferItems: 2, SetBuf: sb, Metrics: true, TTLTick: 2, BucketSecs: 1}, MaxDepth: depth, Clients: 2,
-			Alphabet:  func(r *SeqRun) []Op { return a0 },
+			Alphabet: func(r *SeqRun) []Op { return a0 },
 			AlphabetT: func(r *SeqRun, t int) []Op {
 				// no call is STARTED while a Clear / Close is in progress (the property does not
 				// cover Close or Clear racing other calls); a Wait that is already blocked is the
@@ -210,8 +225,10 @@ func c15Seq(tier string) []SeqJob {
 				}
 				return a1
 			},
-			Oracle:    c15Oracle, Probe: c15Probe,
-			Terminal: func(r *SeqRun) bool { return r.Post.IsClosed && allIdle(r.Post.ClientState) && len(r.Hist) > 0 && closedTwice(r) },
+			Oracle: c15Oracle, Probe: c15Probe,
+			Terminal: func(r *SeqRun) bool {
+				return r.Post.IsClosed && allIdle(r.Post.ClientState) && len(r.Hist) > 0 && closedTwice(r)
+			},
 		}
 		out = append(out, SeqJob{Name: name, Spec: spec, Seconds: secs})
 	}
